@@ -7,7 +7,7 @@ import ast
 import z3
 
 from .ty import (INT, BOOL, STR, TEXT, NONE, Ty, IntT, BoolT, StrT, TextT, NoneT, TupleT, ObjT, ListT, DictT, SetT,
-                 OptT, str_code)
+                 OptT, OrdDictT, MapT, str_code)
 from .engine import Val, IntV, BoolV, StrV, NoneV, Unsupported, EmptyListT, PathDead, SpecEnv
 
 ASSUMED = {
@@ -345,7 +345,9 @@ def b_set(eng, n, st):
         x = z3.FreshConst(v.ty.elt.sort(), "sx")
         i = z3.FreshConst(z3.IntSort(), "si")
         body = z3.Exists([i], z3.And(0 <= i, i < v.ty.len(v.t), z3.Select(v.ty.arr(v.t), i) == x))
-        return Val(z3.Lambda([x], body), sty)
+        r = z3.FreshConst(sty.sort(), "setof")
+        st.assume(z3.ForAll([x], z3.Select(r, x) == body))
+        return Val(r, sty)
     raise Unsupported("set() of %s" % v.ty)
 
 
@@ -369,7 +371,26 @@ class EmptyDictT(Ty):
         raise Unsupported("untyped empty dict; declare the variable in the contract's locals")
 
 
+def b_untok(eng, n, st):
+    v = eng.ev(n.args[0], st)
+    return Val(untok(eng)(v.t), LINE)
+
+
+def b_cat(eng, n, st):
+    a = eng.ev(n.args[0], st)
+    b = eng.ev(n.args[1], st)
+    return Val(cat(eng)(a.t, b.t), STR)
+
+
+def b_keys(eng, n, st):
+    v = eng.ev(n.args[0], st)
+    if isinstance(v.ty, OrdDictT):
+        return Val(v.ty.keys(v.t), v.ty.kl)
+    raise Unsupported("keys() of %s" % v.ty)
+
+
 BUILTINS = {
+    "untok": b_untok, "cat": b_cat, "keys": b_keys,
     "forall": b_forall, "exists": b_exists, "implies": b_implies, "iff": b_iff, "old": b_old, "len": b_len, "int": b_int,
     "str": b_str, "min": b_minmax("min"), "max": b_minmax("max"), "abs": b_abs, "list": b_list, "isinstance": b_isinstance,
     "defined": b_defined, "is_none": b_is_none, "val": b_val, "ite": b_ite, "print": b_print, "sorted": b_sorted,
@@ -398,7 +419,9 @@ def m_list_reverse(eng, recv, n, st):
     ty = recv.ty
     i = z3.FreshConst(z3.IntSort(), "rv")
     L = ty.len(recv.t)
-    new = Val(ty.mk(z3.Lambda([i], z3.Select(ty.arr(recv.t), L - 1 - i)), L), ty)
+    arr = z3.FreshConst(z3.ArraySort(z3.IntSort(), ty.elt.sort()), "rev")
+    st.assume(z3.ForAll([i], z3.Select(arr, i) == z3.Select(ty.arr(recv.t), L - 1 - i)))
+    new = Val(ty.mk(arr, L), ty)
     eng.check_alias(n.func.value, n)
     eng.assign_target(n.func.value, new, st, n)
     return NoneV
@@ -458,11 +481,12 @@ def m_set_update(eng, recv, n, st):
             raise Unsupported("set.update typing")
         recv = Val(ty.empty(), ty)
     x = z3.FreshConst(ty.elt.sort(), "ux")
+    new = z3.FreshConst(ty.sort(), "updated")
     if isinstance(other.ty, SetT):
-        new = z3.Lambda([x], z3.Or(z3.Select(recv.t, x), z3.Select(other.t, x)))
+        st.assume(z3.ForAll([x], z3.Select(new, x) == z3.Or(z3.Select(recv.t, x), z3.Select(other.t, x))))
     elif isinstance(other.ty, ListT):
         i = z3.FreshConst(z3.IntSort(), "ui")
-        new = z3.Lambda([x], z3.Or(z3.Select(recv.t, x), z3.Exists([i], z3.And(0 <= i, i < other.ty.len(other.t), z3.Select(other.ty.arr(other.t), i) == x))))
+        st.assume(z3.ForAll([x], z3.Select(new, x) == z3.Or(z3.Select(recv.t, x), z3.Exists([i], z3.And(0 <= i, i < other.ty.len(other.t), z3.Select(other.ty.arr(other.t), i) == x)))))
     else:
         raise Unsupported("set.update(%s)" % other.ty)
     eng.check_alias(n.func.value, n)
@@ -489,7 +513,7 @@ def m_dict_pop(eng, recv, n, st):
         else:
             d = eng.coerce(d, ty.v, st, n, "default")
             res = Val(z3.If(has, z3.Select(ty.val(recv.t), k.t), d.t), ty.v)
-    new = Val(ty.mk(z3.Store(ty.has(recv.t), k.t, False), ty.val(recv.t)), ty)
+    new = Val(ty.remove(recv.t, k.t), ty)
     eng.check_alias(n.func.value, n)
     eng.assign_target(n.func.value, new, st, n)
     return res
@@ -533,6 +557,9 @@ def aug_builder(eng, cur, s, st):
         if isinstance(v.ty, StrT):
             t = Val(ty.mk(z3.Store(ty.arr(t.t), ty.len(t.t), v.t), ty.len(t.t) + 1), ty)
         elif v.ty == ty:
+            if v.meta is not None and v.meta.get("leading_tab") is False:
+                # "a\tb" appended to a builder: only the empty builder keeps the field structure
+                eng.oblige(st, "safety", "format-without-leading-tab-appended-to-empty-line", ty.len(t.t) == 0, s)
             t = eng.list_concat(t, v, st)
         else:
             raise Unsupported("string builder += %s at line %s" % (v.ty, s.lineno))
@@ -551,6 +578,15 @@ def _aug_default(eng, cur, s, st):
 
 def cat(eng):
     return eng.uf("cat", [STR, STR], STR)
+
+
+def strjoin(eng):
+    eng.assumptions_used.add("assumed: ''.join(tokens) is injective on canonical token lists (untok(strjoin(l)) == l)")
+    return eng.uf("strjoin", [LINE], STR)
+
+
+def untok(eng):
+    return eng.uf("untok", [STR], LINE)
 
 
 def format_fields(eng, fmt, args, st, n):
@@ -572,10 +608,18 @@ def format_fields(eng, fmt, args, st, n):
                         raise Unsupported("format arity at line %s" % n.lineno)
                     a = args[ai]
                     ai += 1
+                    if isinstance(a.ty, OptT) and isinstance(a.ty.inner, (IntT, StrT)):
+                        a = eng.coerce(a, a.ty.inner, st, n, "format argument")
                     if isinstance(a.ty, IntT):
-                        a = Val(itoa(eng)(a.t), STR)
+                        t_ = itoa(eng)(a.t)
+                        st.assume(atoi(eng)(t_) == a.t)
+                        a = Val(t_, STR)
                     elif isinstance(a.ty, StrT):
                         pass
+                    elif isinstance(a.ty, ListT) and isinstance(a.ty.elt, StrT):
+                        t_ = strjoin(eng)(a.t)
+                        st.assume(untok(eng)(t_) == a.t)
+                        a = Val(t_, STR)
                     else:
                         raise Unsupported("format argument of type %s at line %s" % (a.ty, n.lineno))
                     pieces.append(a)
@@ -617,12 +661,7 @@ def lib_format(eng, n, st):
     arr = ty.arr(t)
     for i, f in enumerate(fs):
         arr = z3.Store(arr, i, f.t)
-    v = Val(ty.mk(arr, z3.IntVal(len(fs))), ty)
-    v_leading = leading
-    if not leading:
-        # a complete line prefix; appending to a non-empty builder would merge fields: only allowed on an empty builder
-        v = Val(v.t, ty)
-    return v
+    return Val(ty.mk(arr, z3.IntVal(len(fs))), ty, meta={"leading_tab": leading})
 
 
 # ---- iteration sources ------------------------------------------------------------------------------------
@@ -728,9 +767,8 @@ def key_order(eng, has, kty, st, ordered_keys=None):
 
 def dict_iteration(eng, d, what, st):
     ty = d.ty
-    okeys = getattr(ty, "order_of", None)
-    if okeys is not None:
-        seq = okeys(eng, d)
+    if isinstance(ty, OrdDictT):
+        seq = Val(ty.keys(d.t), ty.kl)
     else:
         seq, _pos = key_order(eng, ty.has(d.t), ty.k, st)
     lty = seq.ty
